@@ -3,7 +3,7 @@ import SSVerif.Model.ApiStatic
 (run only when that module no longer builds). -/
 open SSVerif.Generated SSVerif.Generated.Reach SSVerif.Generated.WriteSets SSVerif.Api SSVerif.ApiStatic
 
-#eval IO.println s!"inputs: missingEntries={missingEntries} unknownWrittenGlobals={unknownWrittenGlobals} tier1Unreachable={tier1Unreachable} hmmInitMpxArgs={hmmInitMpxArgs}"
+#eval IO.println s!"inputs: missingEntries={missingEntries} unassignedApiFunctions={unassignedApiFunctions} unknownWrittenGlobals={unknownWrittenGlobals} tier1Unreachable={tier1Unreachable} hmmInitMpxArgs={hmmInitMpxArgs}"
 #eval IO.println s!"(i)/(ii) utterance-time writes outside the allowed classes: {repr (utterancePhases.flatMap fun ph => ((mayWrite ph).filter fun f => !(f ∈ exceptFields) && !((classify f).kind ∈ [Kind.reset, .dead, .cmn, .tainted, .derived] && ((classify f).kind != .reset || resetWitness f))).map fun f => (ph, f, (classify f).name))}"
 #eval IO.println s!"(ii) reset cells without a static write at start: {repr ((canonTable.filter fun p => !resetWitness p.1).map (·.1))}"
 #eval IO.println s!"(iii) query writes outside caches: {repr (queryPhases.flatMap fun ph => ((mayWrite ph).filter fun f => !(f ∈ exceptFields) && !(classify f ∈ queryGroups ph)).map fun f => (ph, f, (classify f).name))}"
